@@ -4,6 +4,7 @@ from __future__ import annotations
 
 from asyncio import (
     FIRST_COMPLETED,
+    CancelledError,
     ensure_future,
     gather,
     get_running_loop,
@@ -949,6 +950,11 @@ class Executor(Generic[TContext]):
             abort = ensure_future(abort_signal.wait())
             try:
                 await wait({task, abort}, return_when=FIRST_COMPLETED)
+            except CancelledError:
+                # cancelled from outside: pass the cancellation on to the awaitable,
+                # like awaiting it directly would
+                task.cancel()
+                raise
             finally:
                 if not abort.done():
                     abort.cancel()
